@@ -260,6 +260,18 @@ def c02c(tree, ob):
 
 
 def c02e(tree, ob):
+    # an EID is text with its own grammar (RFC 9171: the dtn demux is any visible characters), not a URL to be taken apart
+    # and put together again: URL splitting drops the query and fragment parts and removes control characters
+    for meth in ('i2m', 'm2i'):
+        got = tree.find_method(FIELDS, 'EidField', meth)
+        if not got or got[1].name != 'EidField':
+            continue
+        lossy = [c for c in calls_in(got[2]) if (call_name(c) or '').split('.')[-1] in ('urlsplit', 'urlparse', 'urlunsplit', 'urlunparse')]
+        if lossy:
+            ob.violate(FIELDS, 'EidField.' + meth, src(lossy[0])[:60], "the EID is rebuilt from the parts of a URL split: 'dtn://node/app?x=1' is encoded as '//node/app' (the bundle is forwarded to "
+                       'another destination; with a primary CRC the valid received bundle fails its CRC after re-encoding)', lossy[0])
+        else:
+            ob.site(FIELDS, got[2], 'EidField.{} keeps the scheme specific part as it is'.format(meth))
     ''' Conversions must preserve values: no truthiness tests on a converted value (0, b'', '' and False are values),
     no normalising URL accessors for EID parts, integer time arithmetic, no masking of decoded flag bits. '''
     n = 0
@@ -318,6 +330,20 @@ def c02e(tree, ob):
                            'the encoded EID differs from the given one'.format(sub.attr), sub)
         elif isinstance(sub, ast.Subscript) and isinstance(sub.value, ast.Name) and sub.value.id == 'parts':
             ob.site(FIELDS, sub, 'EID part ' + src(sub))
+    # the scheme specific part reaches the wire as given: cut and joined, never re-spelt (only the scheme name, which is
+    # looked up in the code table and not encoded as text, may be case-folded)
+    RESPELL = {'lower', 'upper', 'casefold', 'title', 'capitalize', 'swapcase', 'strip', 'lstrip', 'rstrip', 'replace', 'translate', 'normalize', 'expandtabs', 'zfill'}
+    nres = 0
+    for c in calls_in(fv.func):
+        if isinstance(c.func, ast.Attribute) and c.func.attr in RESPELL:
+            recv = c.func.value
+            if isinstance(recv, ast.Name) and recv.id == 'scheme':
+                continue
+            nres += 1
+            ob.violate(FIELDS, fv.qual, src(c)[:60], 'a part of the EID is re-spelt ({}) on its way to the wire: the encoded EID differs from the given one (e.g. an upper-case node name is '
+                       'sent lower-cased, so destination / source / report-to of a forwarded bundle change)'.format(c.func.attr), c)
+    if not nres:
+        ob.site(FIELDS, fv.func, 'EidField.i2m only cuts and joins the text of the EID')
     # DTN time <-> datetime uses exact (timedelta / integer) arithmetic
     for meth in ('datetime_to_dtntime', 'dtntime_to_datetime'):
         fv = FuncView(tree, FIELDS, 'DtnTimeField.' + meth)
